@@ -541,7 +541,9 @@ def face_vertices(m, rng, force=None):
         lon, lat = m.lonlat()
         P = np.stack([_lon(lon, d["lon"]), np.array(lat)], axis=1)
     else:
-        P = m.xyz
+        # Cartesian corners need not lie on the unit sphere (kilometres, metres, half a unit)
+        d.setdefault("radius", _pick(rng, [1.0, 1.0, 2.0, 0.5, 6371.229]))
+        P = m.xyz * d["radius"]
     fv = np.full((m.n_face, w, P.shape[1]), float(INT_FILL))
     for i, f in enumerate(m.faces):
         fv[i, : len(f)] = P[f]
